@@ -23,9 +23,12 @@ def pack(tags, encoding='latin_1', cfgname=None):
         iso = M().iso8583
         cfgs = None
         carriers = CARRIERS
-        if cfgname == 'de62-plain':
+        if cfgname in ('de62-plain', 'reconfigured'):
             import copy
             cfgs = copy.deepcopy(M().config.config['bit_config'])
+            if cfgname == 'reconfigured':
+                # the configuration object has been used before, with DE62 still a carrier, and is then edited in place
+                iso.dumps({'MTI': '1240', 'PDS0001': 'A' * 600, 'PDS0002': 'B' * 600}, iso_config=cfgs)
             del cfgs['62']['field_processor']          # DE62 is plain text in this configuration: carriers are 48, 123, 124, 125
             carriers = [48, 123, 124, 125]
         ns = [sym_int('len_%s' % t, 0, 992) for t in tags]
@@ -97,6 +100,8 @@ def obligations(tier):
     ]
     obs.append(Ob('pack/6-tags', pack(['0001', '0002', '0003', '0004', '0005', '0006']), 2400,
                   'six tags, lengths 0..992 (up to five carriers; sets needing six are outside by the capacity assumption)', _funcs))
+    obs.append(Ob('pack/2-tags/reconfigured-carriers', pack(['0500', '0023'], 'latin_1', 'reconfigured'), 300,
+                  'a configuration object that was used once with DE62 as a carrier and then edited in place (DE62 plain): carriers are 48, 123, ...', _funcs))
     obs.append(Ob('pack/3-tags/custom-carriers', pack(['0500', '0501', '0023'], 'latin_1', 'de62-plain'), 300,
                   'caller-supplied configuration in which DE62 is plain text: carriers are 48, 123, 124, 125', _funcs))
     if not q:
